@@ -17,22 +17,22 @@ LEVEL = "other"
 
 # --- frozen discharge tables: one named construct each, with the argument confirmed by reading ----------------
 ASSERT_ARGUMENTS = {
-    ("CParser._build_declarations", "decl['decl'] is not None"):
+    ("CParser._build_declarations", "$(each decls)['decl'] is not None"):
         "decls[0]['decl'] is None only with bitsize None, and that case is either rejected through _parse_error or replaced by a TypeDecl just above; "
         "every other declarator comes from _parse_declarator/_parse_id_declarator (never None) or is a TypeDecl placeholder",
-    ("CParser._parse_abstract_declarator_opt", "ptr is not None"):
+    ("CParser._parse_abstract_declarator_opt", "$(self._parse_pointer()) is not None"):
         "_parse_pointer returns None only when it accepted no '*'; it is called here under look-ahead TIMES (checked automatically: entry fact of _parse_pointer)",
-    ("CParser._parse_direct_abstract_declarator", "decl is not None"):
+    ("CParser._parse_direct_abstract_declarator", "$(c_ast.FuncDecl(args=$, type=c_ast.TypeDecl(None, None, None, None), coord=self._tok_coord($)) | self._parse_abstract_array_base() | self._parse_abstract_declarator_opt()) is not None"):
         "_parse_abstract_declarator_opt returns None only when the next token is none of * ( [; the branch is entered with a token that is not ')' "
         "either, so the following _expect('RPAREN') has already raised ParseError before the assert is reached",
-    ("CLexer._match_token", "tok_type is not None"):
+    ("CLexer._match_token", "$($.lastgroup | 'TYPEID' | _keyword_map.get($, 'ID') | item1 of $) is not None"):
         "every alternative of the master regex is a named group (checked automatically when the tokeniser model is built)",
-    ("CLexer._match_token", "msg is not None"):
+    ("CLexer._match_token", "$(f'Invalid char constant {$}' | item1 of _regex_actions[$] | item4 of $) is not None"):
         "every ERROR rule carries a message except BAD_CHAR_CONST, for which the line above builds one (rule table checked by R-C10.2)",
-    ("_fix_atomic_specifiers_once", "isinstance(parent, c_ast.TypeDecl)"):
+    ("_fix_atomic_specifiers_once", "isinstance($($ | decl), c_ast.TypeDecl)"):
         "a Typename carrying _Atomic is produced only by _parse_atomic_specifier and reaches a declaration only as a type specifier, which "
         "_fix_decl_name_type stores in TypeDecl.type; so its parent in the .type chain is a TypeDecl",
-    ("_fix_atomic_specifiers_once", "grandparent is not None"):
+    ("_fix_atomic_specifiers_once", "$($ | None) is not None"):
         "the search starts at decl.type with parent = decl; a Typename found at the first step would need decl.type to be that Typename, but "
         "_build_declarations always wraps specifiers in a TypeDecl chain, so at least one step has been taken",
 }
@@ -41,26 +41,27 @@ PARTIAL_ARGUMENTS = {
     ("CParser._build_declarations", "decls[0]"): "callers pass a literal one-element list or the non-empty result of a declarator-list production",
     ("CParser._build_declarations", "spec['type'][-1]"): "guarded by len(spec['type']) < 2 in the same or-chain / reached only after that guard raised otherwise",
     ("CParser._build_function_definition", "self._build_declarations(spec=spec, decls=[dict(decl=decl, init=None, bitsize=None)], typedef_namespace=True)[0]"): "one declaration is built per element of the one-element decls list",
-    ("CParser._parse_parameter_declaration", "self._build_declarations(spec=spec, decls=[dict(decl=decl, init=None, bitsize=None)])[0]"): "one declaration per element of the one-element decls list",
+    ("CParser._parse_parameter_declaration", "self._build_declarations(spec=$(item0 of self._parse_declaration_specifiers(allow_no_type=True)), decls=[dict(decl=$(item0 of self._parse_any_declarator(allow_abstract=True, typeid_paren_as_abstract=True) | self._parse_abstract_declarator_opt()), init=None, bitsize=None)])[0]"): "one declaration per element of the one-element decls list",
     ("CParser._build_parameter_declaration", "self._build_declarations(spec=spec, decls=[dict(decl=decl, init=None, bitsize=None)])[0]"): "one declaration per element of the one-element decls list",
     ("CParser._build_parameter_declaration", "spec['type'][-1]"): "guarded by len(spec['type']) > 1 earlier in the same and-chain",
     ("CParser._fix_decl_name_type", "typename[0]"): "else-branch of `if not typename`",
-    ("CParser._parse_decl_body_with_spec", "ty[0]"): "guarded by len(ty) == 1 in the same and-chain / if",
-    ("CParser._parse_struct_declaration", "spec['type'][0]"): "inside `if len(spec['type']) == 1`",
-    ("CParser._parse_type_name", "spec['type'][0]"): "inside `elif spec['type']` (non-empty)",
-    ("CParser._parse_pragmacomp_or_statement", "pragmas[0]"): "_parse_pppragma_directive_list is entered under look-ahead PPPRAGMA/_PRAGMA and its loop runs at least once",
-    ("CParser._parse_initializer_list", "items[0]"): "items is built as a one-element list display",
-    ("CParser._parse_constant", "tok.value[-1]"): "no token language contains the empty string (R-C09.5)",
+    ("CParser._parse_decl_body_with_spec", "$(spec['type'])[0]"): "guarded by len(ty) == 1 in the same and-chain / if",
+    ("CParser._parse_struct_declaration", "$(self._parse_specifier_qualifier_list())['type'][0]"): "inside `if len(spec['type']) == 1`",
+    ("CParser._parse_type_name", "$(self._parse_specifier_qualifier_list())['type'][0]"): "inside `elif spec['type']` (non-empty)",
+    ("CParser._parse_pragmacomp_or_statement", "$(self._parse_pppragma_directive_list())[0]"): "_parse_pppragma_directive_list is entered under look-ahead PPPRAGMA/_PRAGMA and its loop runs at least once",
+    ("CParser._parse_initializer_list", "$([self._parse_initializer_item()])[0]"): "items is built as a one-element list display",
+    ("CParser._parse_initializer_item", "$(None | self._parse_designation())[0]"): "inside `if designation is not None`; _parse_designation is entered under look-ahead LBRACKET/PERIOD and the loop of _parse_designator_list therefore runs at least once",
+    ("CParser._parse_constant", "$(self._advance()).value[-1]"): "no token language contains the empty string (R-C09.5)",
     ("_extract_nested_case", "case_node.stmts[0]"): "Case/Default nodes are built by _parse_labeled_statement with a one-element statement list and only grow",
-    ("fix_switch_cases", "new_compound.block_items[-1]"): "read immediately after appending `child` to the same list",
+    ("fix_switch_cases", "$(c_ast.Compound([], switch_node.stmt.coord)).block_items[-1]"): "read immediately after appending `child` to the same list",
     ("_TokenStream.peek", "self._buffer[self._index + k - 1]"): "_fill(k) has just extended the buffer to at least _index + k entries or appended the end-of-input marker, and k >= 1",
     ("_TokenStream.next", "self._buffer[self._index]"): "_fill(1) has just made sure the entry exists",
-    ("CLexer.token", "text[self._pos]"): "inside `while self._pos < n`",
-    ("CLexer.token", "toks[1]"): "inside `if len(toks) > 1`",
-    ("CLexer.token", "toks[0]"): "inside `if len(toks) > 0`",
-    ("CLexer._match_token", "text[pos]"): "called from token() only while _pos < len(text)",
-    ("CLexer._match_token", "best[0]"): "right operand of `best is None or ...`",
-    ("CLexer._match_token", "_regex_actions[tok_type]"): "tok_type is the name of a master-regex group and the table is built from the same rule list (checked when the model is built)",
+    ("CLexer.token", "$(self._lexdata)[self._pos]"): "inside `while self._pos < n`",
+    ("CLexer.token", "$(self._handle_pppragma())[1]"): "inside `if len(toks) > 1`",
+    ("CLexer.token", "$(self._handle_pppragma())[0]"): "inside `if len(toks) > 0`",
+    ("CLexer._match_token", "$(self._lexdata)[$(self._pos)]"): "called from token() only while _pos < len(text)",
+    ("CLexer._match_token", "$(($, $, $, $, $) | ($, $.tok_type, $.literal, _RegexAction.TOKEN, None) | None)[0]"): "right operand of `best is None or ...`",
+    ("CLexer._match_token", "_regex_actions[$($.lastgroup | 'TYPEID' | _keyword_map.get($, 'ID') | item1 of $)]"): "tok_type is the name of a master-regex group and the table is built from the same rule list (checked when the model is built)",
 }
 PARTIAL_ARGUMENTS.update({
     ("CParser._add_typedef_name", "self._scope_stack[-1]"): "the scope stack is never empty: parse() starts it with one scope, _push_scope appends, _pop_scope refuses to pop the last one",
@@ -70,15 +71,11 @@ PARTIAL_ARGUMENTS.update({
 })
 # entries whose argument only holds for one particular statement
 PARTIAL_ONLY_IN = {
-    ("fix_switch_cases", "new_compound.block_items[-1]"): {"last_case = new_compound.block_items[-1]"},
-    ("_extract_nested_case", "case_node.stmts[0]"): {"if isinstance(case_node.stmts[0], (c_ast.Case, c_ast.Default)): nested = case_node.stmts.pop() stmts_list.append(nested) _extract_nested_case(cast(Any, nested), stmts_list)"},
+    ("fix_switch_cases", "$(c_ast.Compound([], switch_node.stmt.coord)).block_items[-1]"): {"_ = $(c_ast.Compound([], switch_node.stmt.coord)).block_items[-1]"},
+    ("_extract_nested_case", "case_node.stmts[0]"): {"if isinstance(case_node.stmts[0], (c_ast.Case, c_ast.Default)): _ = case_node.stmts.pop() stmts_list.append($(case_node.stmts.pop())) _extract_nested_case(cast(Any, $(case_node.stmts.pop())), stmts_list)"},
 }
 # attribute reads on specifier-list elements that rely on an invariant instead of a visible isinstance test
-HETERO_ARGUMENTS = {
-    ("CParser._build_declarations", "decls_0_tail.declname = spec['type'][-1].names[0]"):
-        "a declarator whose innermost declname is None (and bitsize None) reaches _build_declarations only from _build_parameter_declaration, after its "
-        "own isinstance(spec['type'][-1], IdentifierType) test; all other callers pass named declarators or node-valued placeholders",
-}
+HETERO_ARGUMENTS = {}     # (the one former entry was wrong - defect D23, fixed by e17b02d - and is now a visible isinstance guard)
 TYPE_LIST_NAMES = {"spec", "typename", "ty"}
 
 
@@ -98,8 +95,85 @@ def reachable_functions():
     return out
 
 
-def alpha_norm(expr):
-    return norm(S.unparse(expr))
+class Canon:
+    """Rename-invariant rendering of expressions of one function: every local variable is replaced by the provenance of its
+    value (the right-hand sides bound to it, rendered the same way), parameters and attribute paths keep their names."""
+
+    def __init__(self, fn):
+        self.fn = fn
+        self.params = {a.arg for a in fn.args.args + fn.args.kwonlyargs} | ({fn.args.vararg.arg} if fn.args.vararg else set()) | ({fn.args.kwarg.arg} if fn.args.kwarg else set())
+        self.defs = {}
+        for n in ast.walk(fn):
+            if isinstance(n, ast.Assign):
+                for t in n.targets:
+                    self._bind(t, n.value, "")
+            elif isinstance(n, ast.AnnAssign) and n.value is not None:
+                self._bind(n.target, n.value, "")
+            elif isinstance(n, ast.NamedExpr):
+                self._bind(n.target, n.value, "")
+            elif isinstance(n, (ast.For, ast.comprehension)):
+                self._bind(n.target, n.iter, "each ")
+            elif isinstance(n, ast.With):
+                for it in n.items:
+                    if it.optional_vars is not None:
+                        self._bind(it.optional_vars, it.context_expr, "with ")
+            elif isinstance(n, ast.MatchAs) and n.name:
+                self.defs.setdefault(n.name, []).append(("case", None))
+            elif isinstance(n, ast.ExceptHandler) and n.name:
+                self.defs.setdefault(n.name, []).append(("except", None))
+        self._memo = {}
+
+    def _bind(self, t, value, tag):
+        if isinstance(t, ast.Name):
+            if t.id not in self.params:
+                self.defs.setdefault(t.id, []).append((tag, value))
+        elif isinstance(t, (ast.Tuple, ast.List)):
+            for i, e in enumerate(t.elts):
+                self._bind(e, value, f"{tag}item{i} of ")
+
+    def prov(self, name, depth=0, stack=()):
+        if name in self.params or name not in self.defs:
+            return name
+        if name in stack or depth > 0:
+            return "$"          # one level of provenance: deeper locals are anonymous
+        key = (name, depth)
+        if key not in self._memo:
+            parts = set()
+            for tag, v in self.defs[name]:
+                parts.add(tag + (self.text(v, depth + 1, stack + (name,)) if v is not None else ""))
+            self._memo[key] = "$(" + " | ".join(sorted(parts)) + ")"
+        return self._memo[key]
+
+    def text(self, node, depth=0, stack=()):
+        saved = []
+        try:
+            for n in ast.walk(node):
+                if isinstance(n, ast.Name) and n.id in self.defs and n.id not in self.params:
+                    saved.append((n, n.id))
+            repl = [("_" if isinstance(n.ctx, ast.Store) else self.prov(old, depth, stack)) for n, old in saved]
+            for (n, _old), new in zip(saved, repl):
+                n.id = new
+            return norm(ast.unparse(node))
+        finally:
+            for n, old in saved:
+                n.id = old
+
+
+_canons = {}
+
+
+def canon_of(fn) -> Canon:
+    c = _canons.get(id(fn))
+    if c is None or c.fn is not fn:
+        c = _canons[id(fn)] = Canon(fn)
+    return c
+
+
+def alpha_norm(expr, fn=None):
+    """whitespace-normalised text; with fn, local variable names are replaced by their provenance (rename-invariant keys)"""
+    if fn is None:
+        return norm(S.unparse(expr))
+    return canon_of(fn).text(expr)
 
 
 def check(ctx):
@@ -166,7 +240,7 @@ def check(ctx):
         for n in ast.walk(fn):
             if not isinstance(n, ast.Assert):
                 continue
-            cond = alpha_norm(n.test)
+            cond = alpha_norm(n.test, fn)
             how = None
             vals = auto.get(id(n))
             if vals is not None and vals <= {True}:
@@ -222,27 +296,27 @@ def check(ctx):
         if mod is not px:
             continue
         for n in ast.walk(fn):
-            if isinstance(n, ast.Attribute) and isinstance(n.ctx, ast.Load) and _is_type_list_element(n.value):
+            if isinstance(n, ast.Attribute) and isinstance(n.ctx, ast.Load) and _is_type_list_element(n.value, fn):
                 missing = sorted(c for c in classes if n.attr not in slots.get(c, set()))
                 stmt = n
                 while stmt is not None and not isinstance(stmt, ast.stmt):
                     stmt = getattr(stmt, "_parent", None)
-                ok = not missing or _guarded_by_isinstance(n, fn) or (q, alpha_norm(stmt) if stmt is not None else "") in HETERO_ARGUMENTS
+                ok = not missing or _guarded_by_isinstance(n, fn) or (q, alpha_norm(stmt, fn) if stmt is not None else "") in HETERO_ARGUMENTS
                 ctx.oblige("R-C06.3", f"{q}: {alpha_norm(n)}", ok, sample={"rule": "R-C06.3", "function": q, "construct": alpha_norm(n), "classes lacking it": missing, "verdict": "guarded / total" if ok else "UNGUARDED"})
                 if not ok:
                     viol("R-C06.3", mod, q, n, f"hetero:{q}:{alpha_norm(n)}", f"`{alpha_norm(n)}` reads .{n.attr} of a type-specifier list element, but the list can hold {missing} nodes which have no such attribute, and no isinstance test guards the access: AttributeError escapes")
     # (c) constant-index subscripts and dictionary lookups by table
     for mod, q, fn in funcs:
         for n in ast.walk(fn):
-            if isinstance(n, ast.Subscript) and isinstance(n.ctx, ast.Load) and _is_partial_subscript(n):
-                key = (q, alpha_norm(n))
+            if isinstance(n, ast.Subscript) and isinstance(n.ctx, ast.Load) and _is_partial_subscript(n, fn):
+                key = (q, alpha_norm(n, fn))
                 auto_ok = _auto_guard(n, fn)
                 ok = auto_ok or key in PARTIAL_ARGUMENTS
                 if ok and not auto_ok and key in PARTIAL_ONLY_IN:
                     stmt = n
                     while stmt is not None and not isinstance(stmt, ast.stmt):
                         stmt = getattr(stmt, "_parent", None)
-                    ok = stmt is not None and alpha_norm(stmt) in PARTIAL_ONLY_IN[key]
+                    ok = stmt is not None and alpha_norm(stmt, fn) in PARTIAL_ONLY_IN[key]
                 ctx.oblige("R-C06.3", f"{q}: {key[1][:60]}", ok, nontrivial=not auto_ok,
                            sample={"rule": "R-C06.3", "function": q, "construct": key[1][:80], "discharge": "syntactic guard" if auto_ok else PARTIAL_ARGUMENTS.get(key, "NONE")} if not auto_ok else None)
                 if not ok:
@@ -394,14 +468,42 @@ def _class_values(call, cp):
     return set()
 
 
-def _is_type_list_element(e):
-    """e is  <name>['type'][i]  with a spec-like name, or  <ty|typename>[i]."""
+def _is_text_var(v, fn):
+    """a local / parameter that holds (a slice of) the input text: its provenance reaches self._lexdata"""
+    if not isinstance(v, ast.Name):
+        return False
+    c = canon_of(fn)
+    if v.id in c.params:
+        return v.id in ("text", "line")
+    seen, todo = set(), [v.id]
+    while todo:
+        x = todo.pop()
+        if x in seen:
+            continue
+        seen.add(x)
+        for _tag, rhs in c.defs.get(x, []):
+            if rhs is None:
+                continue
+            base = rhs
+            while isinstance(base, ast.Subscript):
+                base = base.value
+            if isinstance(base, ast.Attribute) and base.attr == "_lexdata":
+                return True
+            if isinstance(base, ast.Name):
+                todo.append(base.id)
+    return False
+
+
+def _is_type_list_element(e, fn):
+    """e is  <name>['type'][i]  with a spec-like name, or  <v>[i] with v bound to <spec>['type'] / the typename parameter."""
     if isinstance(e, ast.Subscript):
         v = e.value
         if isinstance(v, ast.Subscript) and isinstance(v.slice, ast.Constant) and v.slice.value == "type":
             return True
-        if isinstance(v, ast.Name) and v.id in ("ty", "typename") and not isinstance(e.slice, ast.Slice):
-            return True
+        if isinstance(v, ast.Name) and not isinstance(e.slice, ast.Slice):
+            c = canon_of(fn)
+            if (v.id in c.params and v.id == "typename") or (v.id not in c.params and c.prov(v.id).endswith("['type'])")):
+                return True
     return False
 
 
@@ -446,7 +548,7 @@ def _ends_noreturn(body):
     return isinstance(last, ast.Expr) and isinstance(last.value, ast.Call) and isinstance(last.value.func, ast.Attribute) and last.value.func.attr == "_parse_error"
 
 
-def _is_partial_subscript(n):
+def _is_partial_subscript(n, fn):
     if isinstance(n.slice, ast.Slice):
         return False
     if isinstance(n.slice, ast.Constant) and isinstance(n.slice.value, str):
@@ -461,7 +563,7 @@ def _is_partial_subscript(n):
         return True
     if isinstance(n.value, ast.Attribute) and n.value.attr == "_buffer":
         return True
-    if isinstance(n.value, ast.Name) and n.value.id in ("text", "line"):
+    if _is_text_var(n.value, fn):
         return True
     return False
 
@@ -477,18 +579,32 @@ def _auto_guard(n, fn):
         if isinstance(par, ast.FunctionDef) and par.returns is cur:
             return True
         cur = par
+    # E[0] / E[-1] inside the body of `if E:` / `elif E:` / `if len(E) == k (k >= 1)` / `if len(E) > k`: E is not empty there
+    if isinstance(n.slice, (ast.Constant, ast.UnaryOp)):
+        target = S.unparse(n.value)
+        cur = n
+        while cur is not None and cur is not fn:
+            par = getattr(cur, "_parent", None)
+            if isinstance(par, ast.If) and any(cur is st for st in par.body):
+                t = par.test
+                tests = t.values if isinstance(t, ast.BoolOp) and isinstance(t.op, ast.And) else [t]
+                for tt in tests:
+                    if S.unparse(tt) == target:
+                        return True
+                    if isinstance(tt, ast.Compare) and len(tt.ops) == 1 and isinstance(tt.left, ast.Call) and S.unparse(tt.left.func) == "len" and tt.left.args and S.unparse(tt.left.args[0]) == target \
+                            and isinstance(tt.comparators[0], ast.Constant) and isinstance(tt.comparators[0].value, int):
+                        k = tt.comparators[0].value
+                        if (isinstance(tt.ops[0], ast.Eq) and k >= 1) or (isinstance(tt.ops[0], ast.Gt) and k >= 0) or (isinstance(tt.ops[0], ast.GtE) and k >= 1):
+                            return True
+            cur = par
     if isinstance(n.value, ast.Name) and n.value.id.startswith("_") and isinstance(n.slice, (ast.Attribute, ast.Name)):
         # TABLE[x] after `x not in TABLE: break` / `x in TABLE`
         tbl, idx = n.value.id, S.unparse(n.slice)
         for c in ast.walk(fn):
             if isinstance(c, ast.Compare) and len(c.ops) == 1 and isinstance(c.ops[0], (ast.In, ast.NotIn)) and S.unparse(c.left) == idx and S.unparse(c.comparators[0]) == tbl and c.lineno <= n.lineno:
                 return True
-    if isinstance(n.value, ast.Name) and n.value.id == "line" and isinstance(n.slice, ast.Name):
-        # line[pos] inside `pos < line_len` guards of the #line scanner
-        for c in ast.walk(fn):
-            if isinstance(c, ast.Compare) and S.unparse(c.left) == S.unparse(n.slice) and any(isinstance(o, (ast.Lt, ast.GtE)) for o in c.ops):
-                return True
-    if isinstance(n.value, ast.Name) and n.value.id == "text" and isinstance(n.slice, ast.Name):
+    if _is_text_var(n.value, fn) and isinstance(n.slice, ast.Name):
+        # text[pos] / line[pos] inside `pos < n` guards of the hand-written scanners
         for c in ast.walk(fn):
             if isinstance(c, ast.Compare) and S.unparse(c.left) == S.unparse(n.slice) and any(isinstance(o, (ast.Lt, ast.GtE)) for o in c.ops):
                 return True
